@@ -49,6 +49,33 @@ Theorem C30_credit_max : forall Sig (recover : cheque -> Sig -> option addr) sel
 Proof. intros Sig recover self_ h rs s'. exact (run_credit_init self_ (map (observe recover) h) rs s'). Qed.
 Print Assumptions C30_credit_max.
 
+(** the same from an ARBITRARY initial state [s0] — in particular one restored by Init after a restart,
+    [restore s chain lists], whose records are max(on-chain cashed amount, last stored cheque) for any chain
+    values: the stored last cheque of an issuer is the maximum of what was stored and what was accepted since;
+    as soon as one cheque of an issuer is accepted its credited record EQUALS its stored last cheque (the credit
+    assigns the cheque's cumulative payout, it does not add the increment to the restored total); an issuer
+    without an accepted cheque keeps its restored record; accepted payouts strictly increase from the stored one *)
+Theorem C30_credit_max_restored : forall Sig (recover : cheque -> Sig -> option addr) (s0 : state) (h : list (wop Sig)) rs s',
+  run s0 (map (observe recover) h) = (rs, s') ->
+  forall a,
+    let acc := accepted_payouts a (map (observe recover) h) rs in
+    last_payout (last_recv s') a
+      = Z.max (last_payout (last_recv s0) a) (fold_right Z.max (last_payout (last_recv s0) a) acc) /\
+    (acc <> [] -> credited_of s' a = last_payout (last_recv s') a) /\
+    (acc = [] -> credited_of s' a = credited_of s0 a) /\
+    strictly_increasing_from (last_payout (last_recv s0) a) acc.
+Proof. intros Sig recover s0 h rs s'. exact (run_restored s0 (map (observe recover) h) rs s'). Qed.
+Print Assumptions C30_credit_max_restored.
+
+(** non-vacuity of the restored case (the seeded change C30-3): the chain says issuer 2 cashed 100, nothing is
+    stored; Init restores the record 100; cheques 150, 150 (replay), 120, 180 -> record 180 (not 100 + 180) *)
+Example C30_restored_example :
+  let s0 := restore (snd (run (init 1) [OHandshake 10 2])) [(2, 100%Z)] [2] in
+  let sc z := {| chq := {| recipient := 1; beneficiary := 2; payout := z |}; rec := Some 2 |} in
+  let '(rs, s') := run s0 [OReceive 10 (sc 150%Z); OReceive 10 (sc 150%Z); OReceive 10 (sc 120%Z); OReceive 10 (sc 180%Z)] in
+  credited_of s0 2 = 100%Z /\ map is_ok rs = [true; false; false; true] /\ credited_of s' 2 = 180%Z.
+Proof. vm_compute. repeat split. Qed.
+
 (** the accepted payouts of one issuer are strictly increasing (and positive) along any
     history: a replayed or reordered cheque is never accepted a second time *)
 Theorem C30_no_double_credit : forall Sig (recover : cheque -> Sig -> option addr) self_ (h : list (wop Sig)) rs s' a,
